@@ -182,3 +182,34 @@ register('C01', Probe('complex instance containing an entity with two supertypes
 # masks shared by every check that needs a compiled schema library (the finding itself belongs to C02 "compiles")
 for _p in ('C01',):
     _m(_p)['schema'].add('selmember_renamed_enum')
+
+
+# ------------------------------------------------------------------------------------------------ C10 probes
+def _p_lazy_cycle():
+    s = M.Schema('pr_lzcyc', [], [M.Entity('n', attrs=[M.Attr('nxt', M.ENT('n'), True), M.Attr('v', M.INT())])])
+    return s, [Inst(1, [('N', [('ref', 2), ('int', 1)])]), Inst(2, [('N', [('ref', 1), ('int', 2)])])]
+
+
+def _p_lazy_self():
+    s = M.Schema('pr_lzself', [], [M.Entity('n', attrs=[M.Attr('nxt', M.ENT('n'), True), M.Attr('v', M.INT())])])
+    return s, [Inst(1, [('N', [('ref', 1), ('int', 1)])])]
+
+
+register('C10', Probe('two instances referencing each other', _p_lazy_cycle, masks=dict(pop=['ref_cycle'], schema=['required_entity_ref'])))
+register('C10', Probe('instance referencing itself', _p_lazy_self, masks=dict(pop=['ref_cycle'])))
+
+
+# ------------------------------------------------------------------------------------------------ C08 probes (fixed graphs)
+def _g(name, spec):
+    """spec: list of (entity, supers, abstract, sexpr)"""
+    ents = [M.Entity('z', attrs=[M.Attr('a_z', M.INT())])]
+    for (n, sup, ab, sx) in spec:
+        ents.append(M.Entity(n, supers=list(sup), abstract=ab, sexpr=sx, attrs=[M.Attr('a_' + n, M.INT())]))
+    return M.Schema(name, [], ents)
+
+
+register('C08', Probe('multi-supertype subtype with one supertype absent', lambda: (_g('pr_c08ms', [
+    ('a', [], False, None), ('b', ['a'], False, None), ('c', ['a'], False, None), ('e', ['b', 'c'], False, None)]), [])))
+register('C08', Probe('legal set with a two-supertype member and unconstrained siblings', lambda: (_g('pr_c08ms2', [
+    ('r0', [], False, None), ('r1', [], False, None), ('a', ['r0'], False, None), ('b', ['r1'], False, None), ('c', ['a'], False, None),
+    ('d', ['a', 'r1'], False, None)]), [])))
